@@ -1,9 +1,10 @@
 (** C14 — messages are assigned to, and only relayable by, an eligible relayer; fees are ceilings.
     Only statements closed by [exact]; models in Evm/Assign.v, Cons/Relay.v, Cons/Fees.v, Base/Dec.v,
     proofs in the *Proofs.v files next to them.  Constants and code shapes come from Gen/C14.v. *)
-From Coq Require Import List ZArith Bool.
+From Coq Require Import String List ZArith Bool.
 From Paloma Require Import Base.Dec Base.DecProofs Evm.Assign Evm.AssignProofs
      Cons.Fees Cons.FeesProofs Cons.Relay Cons.RelayProofs.
+From Paloma Require Import Evm.AssignOv Evm.AssignOvProofs Cons.RelayCapProofs Cons.RelaySys Cons.RelaySysProofs.
 Import ListNotations.
 Open Scope Z_scope.
 
@@ -138,6 +139,168 @@ Print Assumptions accepted_multiplier_fees_defined.
 Theorem reassign_has_no_production_caller : Gen.C14.reassign_production_callers = [].
 Proof. exact reassign_not_reachable. Qed.
 Print Assumptions reassign_has_no_production_caller.
+
+
+(** ======== second round ======== *)
+
+(** 7. Who enqueues.  Every production call of the consensus keeper's PutMessageInQueue is inventoried
+    by the translator (Gen.C14.enqueue_sites, pinned in Cons/RelaySysProofs.v).  The five that write to a
+    turnstone queue (logic call, user contract upload, compass upload, compass handover, valset update
+    behind PublishValsetToChain / justInTimeValsetUpdate) take Assignee and AssigneeRemoteAddress from
+    results 0 and 1 of ONE PickValidatorForMessage call whose error is returned before the put; the
+    other three (validator balances, reference block, collect funds) use queues of their own and write
+    no assignee.  The only direct Queue.Put elsewhere replaces a message by itself with fees set. *)
+Theorem every_turnstone_enqueue_goes_through_the_pick :
+  forallb site_ok Gen.C14.enqueue_site_facts = true /\
+  List.length Gen.C14.enqueue_site_facts = List.length Gen.C14.enqueue_sites /\
+  Gen.C14.direct_queue_puts =
+    [ "x/consensus/keeper/concensus_keeper.go:PutMessageInQueue ; opts=opts";
+      "x/consensus/keeper/estimate.go:checkAndProcessEstimatedFeePayer ; replace msg.GetId()" ]%string.
+Proof. exact (conj every_enqueue_site_ok (conj (proj1 enqueue_sites_all_decided) direct_queue_puts_are)). Qed.
+Print Assumptions every_turnstone_enqueue_goes_through_the_pick.
+
+(** 8. Over every history of the turnstone queue of chain [ch] in which the tables (snapshot, metrics,
+    relayer fees, weights, fund fees) change arbitrarily between requests of all five kinds, estimates,
+    elections, reports, removals and attested error proofs with their retries: every queued message was
+    assigned by a pick on the tables of some earlier moment [pre] of that history, and its assignee
+    was eligible THEN (metrics and fee on record, an account on the chain whose address is the
+    recorded remote address, the MEV trait if that request demanded it); Retries stays within 0..2. *)
+Theorem queued_assignee_was_eligible_when_assigned :
+  forall ch ops m,
+  In m (queue (sy_q (srun ch ops))) ->
+  exists me pre post,
+    meta_of (srun ch ops) (mid m) = Some me /\ mkind m = kind_of (me_kind me) /\
+    0 <= me_retries me <= max_retries /\
+    ops = pre ++ post /\
+    let t := sy_tables (srun ch pre) in
+    let v := massignee m in
+    has_metrics (tb_metrics t) v /\ has_fee (tb_fees t) v /\
+    (exists e, In e (tb_snap t) /\ v_addr e = v /\ account e ch = Some (me_remote me)) /\
+    (exists e', In e' (tb_snap t) /\ v_addr e' = v /\ account e' ch <> None /\
+                (mev_required (req_flag (me_kind me)) = true -> carries_trait e' ch trait_mev)).
+Proof. exact sys_assignee_eligible. Qed.
+Print Assumptions queued_assignee_was_eligible_when_assigned.
+
+(** 9. "Offered only to its assignee", when the snapshot moves on: the assignee written at enqueue time
+    never changes and ids are never reused, so whoever is offered message [id] at any later moment is
+    the validator it was first assigned to - whatever happened to the tables in between.  The offer
+    does not look at the tables at all ([for_relaying] reads the queue). *)
+Theorem offered_only_to_the_first_assignee :
+  forall ch ops1 ops2 m1 m2 v a,
+  In m1 (queue (sy_q (srun ch ops1))) ->
+  In m2 (for_relaying (queue (sy_q (srun ch (ops1 ++ ops2)))) v) -> mkind m2 = KEvm a ->
+  mid m1 = mid m2 -> massignee m1 = v.
+Proof. exact sys_offer_only_to_first_assignee. Qed.
+Print Assumptions offered_only_to_the_first_assignee.
+
+(** 9b. ... and therefore eligibility is a fact about the moment of assignment only.  The strict reading
+    "the assignee is in the CURRENT snapshot whenever the message is offered" is refuted: a validator
+    that left the snapshot after the assignment is still the only one offered the message (nothing
+    re-assigns: theorem reassign_has_no_production_caller).  Replayed on the real keepers every run. *)
+Theorem offer_outlives_eligibility_refuted :
+  exists ch ops v m,
+    In m (for_relaying (queue (sy_q (srun ch ops))) v) /\ massignee m = v /\
+    ~ in_snapshot (tb_snap (sy_tables (srun ch ops))) v.
+Proof. exact offer_outlives_eligibility_witness. Qed.
+Print Assumptions offer_outlives_eligibility_refuted.
+
+(** 10. Retry after an attested error proof (logic call, user contract upload, compass upload; Retries
+    below 2): the old message is gone; the SAME enqueueing caller runs again, so the assignee is a fresh
+    pick on the tables of that moment (eligible then, by 8); the new message has a fresh id, no elected
+    estimate and no fees (they are computed again at its own election, for its own assignee, by 11);
+    Retries + 1.  If that pick returns an error nothing is enqueued and the old message is still removed;
+    if it panics (negative block time, ranking overflow) nothing of the attestation is written. *)
+Theorem retry_is_a_fresh_assignment :
+  forall ch ops id ts m me,
+  let s := srun ch ops in
+  let s' := srun ch (ops ++ [SAttestError id ts]) in
+  In m (queue (sy_q s)) -> mid m = id -> meta_of s id = Some me ->
+  retryable (me_kind me) = true -> me_retries me < max_retries ->
+  (forall v remote, pick_now ch (sy_tables s) (me_kind me) ts = Picked v remote ->
+     queue (sy_q s') = filter (fun x => negb (mid x =? id)) (queue (sy_q s)) ++
+                       [fresh_msg (next_id (sy_q s) + 1) (kind_of (me_kind me)) v (needs_estimate (me_kind me)) false] /\
+     meta_of s' (next_id (sy_q s) + 1) =
+       Some {| me_kind := me_kind me; me_retries := me_retries me + 1; me_turn := me_turn me; me_remote := remote |}) /\
+  (forall c, pick_now ch (sy_tables s) (me_kind me) ts = PickErr c ->
+     queue (sy_q s') = filter (fun x => negb (mid x =? id)) (queue (sy_q s))) /\
+  (pick_now ch (sy_tables s) (me_kind me) ts = PickPanic -> s' = s) /\
+  (pick_now ch (sy_tables s) (me_kind me) ts <> PickPanic -> forall x, In x (queue (sy_q s')) -> mid x <> id).
+Proof. exact sys_retry. Qed.
+Print Assumptions retry_is_a_fresh_assignment.
+
+(** 10b. No retry for valset updates and handovers, nor after two retries: the message is only removed. *)
+Theorem retry_is_bounded :
+  forall ch ops id ts m me,
+  let s := srun ch ops in
+  let s' := srun ch (ops ++ [SAttestError id ts]) in
+  In m (queue (sy_q s)) -> mid m = id -> meta_of s id = Some me ->
+  retryable (me_kind me) = false \/ max_retries <= me_retries me ->
+  queue (sy_q s') = filter (fun x => negb (mid x =? id)) (queue (sy_q s)) /\ next_id (sy_q s') = next_id (sy_q s).
+Proof. exact sys_retry_exhausted. Qed.
+Print Assumptions retry_is_bounded.
+
+(** 11. Fees with changing tables: what a queued message carries are the ceilings for the multiplier that
+    was on record for ITS assignee, and the fund rates, at some earlier moment of the history (its
+    election) - never another validator's, also after retries. *)
+Theorem queued_fees_are_ceilings_with_changing_tables :
+  forall ch ops m f,
+  In m (queue (sy_q (srun ch ops))) -> mfees m = Some f ->
+  exists pre post rf, ops = pre ++ post /\
+    let t := sy_tables (srun ch pre) in
+    fee_lookup (tb_fees t) (massignee m) = Some rf /\
+    is_ceiling (rf * mest m) (fee_relayer f) /\
+    is_ceiling (tb_community t * fee_relayer f) (fee_community f) /\
+    is_ceiling (tb_security t * fee_relayer f) (fee_security f).
+Proof. exact sys_queued_fees_are_ceilings. Qed.
+Print Assumptions queued_fees_are_ceilings_with_changing_tables.
+
+(** 12. The response cap, exactly: in every reachable queue (fixed or changing tables) an EVM message is
+    returned to [v] iff it meets the five conditions AND fewer than 1000 candidates of that query
+    (non-EVM payloads of the queue included) have a smaller id. *)
+Theorem relay_offer_exact :
+  forall c ops v m a,
+  let q := queue (run c ops) in
+  mkind m = KEvm a ->
+  (In m (for_relaying q v) <->
+   relayable q v m a /\ (List.length (older_than m (relay_candidates q v)) < Z.to_nat response_cap)%nat).
+Proof. exact relay_offer_exact_run. Qed.
+Print Assumptions relay_offer_exact.
+
+Theorem relay_offer_exact_with_changing_tables :
+  forall ch ops v m a,
+  let q := queue (sy_q (srun ch ops)) in
+  mkind m = KEvm a ->
+  (In m (for_relaying q v) <->
+   relayable q v m a /\ (List.length (older_than m (relay_candidates q v)) < Z.to_nat response_cap)%nat).
+Proof. exact sys_offer_exact. Qed.
+Print Assumptions relay_offer_exact_with_changing_tables.
+
+(** 13. The ranking arithmetic.  Every LegacyDec operation of scoreValue / the weighted sum asserts
+    |raw| <= 2^256 * 10^18 - 1 and panics otherwise, before the job filter runs ([pick_ov]).  With
+    non-negative table values inside that range and weights whose absolute values sum to at most the
+    limit (defaults: 5) no assertion can fail: [pick_ov = pick], so 1-2b speak about the code. *)
+Theorem ranking_cannot_overflow :
+  forall sn ms fs w chain req ts,
+  nonneg_tables ms fs -> weight_sum w <= upper_limit ->
+  pick_ov sn ms fs w chain req ts = pick sn ms fs w chain req ts.
+Proof. exact pick_never_overflows. Qed.
+Print Assumptions ranking_cannot_overflow.
+
+(** 13b. The hypothesis on the weights is needed: RelayWeightsProposal stores any five decimal strings
+    (no validation), and five weights of 10^77 make every pick on that chain panic with ordinary
+    tables.  Reached only through governance; where the panic lands is C09's matter (design/C14.md). *)
+Theorem ranking_overflow_needs_bounded_weights_refuted :
+  nonneg_tables ov_ms ov_fs /\ in_range (w_fee ov_w) = true /\
+  pick_ov ov_sn ov_ms ov_fs ov_w 1 None 1700000000 = PickPanic.
+Proof. exact (conj ov_tables_nonneg (conj huge_weight_is_a_valid_decimal ranking_overflow_reachable)). Qed.
+Print Assumptions ranking_overflow_needs_bounded_weights_refuted.
+
+(** 13c. Whatever the arithmetic does, a successful pick is the model's pick. *)
+Theorem pick_with_overflow_check_picks_the_same :
+  forall sn ms fs w chain req ts v r,
+  pick_ov sn ms fs w chain req ts = Picked v r -> pick sn ms fs w chain req ts = Picked v r.
+Proof. exact pick_ov_picked. Qed.
+Print Assumptions pick_with_overflow_check_picks_the_same.
 
 
 (* --- source translation tie (GenFn) --- *)
